@@ -37,6 +37,18 @@ checks = {
    technique="exhaustive enumeration of predecessor histories (behaviour flags x abandonment point x logging x single/double Close) followed by probe transactions on the forcibly recycled object (sync.Pool replaced by a deterministic LIFO through the instrumenter); differential oracle: same probe on a brand-new WAF and object",
    text="Every predecessor of the family is executed on the real code, its transaction object is forced to be the one the probe receives, and the probe's complete observable outcome (return values, interruption, matched rules, every variable collection through the plugin interface, body readers, audit record) must equal the fresh outcome; readers of the closed predecessor must yield nothing; a double Close must not alias two later transactions.",
    note="Trusted: the pool shim hands out the most recently returned object (verified by the self test that every flag triggers its rule, and by the AllowType mutant). ENV/time/id variables masked. Bounded: <=1 flag (quick) / <=2 flags (thorough) of 34, 11 abandonment points, 3 probes."),
+ "C13": dict(level="model_checking", design="§3 C13", engine="bfs",
+   technique="explicit-state breadth-first search over histories of WAF build/close operations drawn from a pool of configurations with colliding pattern-cache keys, every live WAF probed after every operation; conformance: stand-alone probe table diffed against a second binary built with -tags coraza.no_memoize",
+   text="All histories up to depth 3 (quick) / 5 (thorough) over 13 configurations x {build, close} are executed in one process on the real code; a WAF must behave exactly as when built alone and NewWAF must never fail or panic because of what was built before; the default build's table must equal the cache-less build's table.",
+   note="Trusted: memoize.Reset gives a pristine cache between histories; the pool covers every call site that chooses a cache key (pm, pmFromFile, pmFromDataset, restpath, validateNid, rx, regex target keys, ctl target regexes, SecAuditLogRelevantStatus). Histories are not merged (cache content is not publicly observable). Concurrent build/close is C06's subject."),
+ "C14": dict(level="exploration", design="§3 C14", engine="enumeration",
+   technique="exhaustive enumeration of byte strings (all of length <=2/3 over 256 values; all of length <=6/8 over each transformation's escape alphabet; wildcard, sandwich and long-run families) through all 34 registered transformations called directly, and of transformation lists (<=2 over all names, 3-4 over a sub-alphabet) through real multiMatch rules; oracles = totality, purity (input copy, result stability under pooled reuse), change-flag soundness, standard-library identities",
+   text="Within the stated alphabets every truncation of every escape at every offset is tried: no panic, equal results on equal input, input bytes untouched, earlier results not modified by later calls, `unchanged` never reported for a differing output, the property's identities, and for multiMatch the exact set of values the operator sees.",
+   note="Trusted: Go standard library for md5/sha1/encodings. Not asserted: decoder output correctness beyond the named identities, case folding on non-ASCII input, outputs when a transformation returns an error."),
+ "C18": dict(level="exploration", design="§3 C18", engine="enumeration",
+   technique="exhaustive enumeration of handler programs (<=3 / <=5 operations over 13 response operations; <=2 / <=3 over 6 request-side operations) x request bodies around the limits x rule placement/action x body-access / MIME / limit-action settings, served in-process through the real middleware on httptest.ResponseRecorder and on a strict net/http-conformant writer; blocking oracle absolute, pass-through oracle differential against the same program without the middleware",
+   text="For every generated handler, body and configuration: interrupted in a request phase => handler not entered, interruption's status, no body; interrupted in a response phase => no handler body byte reaches the client; otherwise the handler reads exactly the client's body and the client receives exactly the handler's status, headers and body.",
+   note="Trusted: the strict writer's model of net/http's header-snapshot rules. Not covered: HTTP/2, hijacked connections, trailers, HEAD, real sockets and timing. One open known finding (headers changed after WriteHeader reach the client)."),
 }
 not_applicable = {}
 
